@@ -87,6 +87,19 @@ func genChurnPlan(maxInitial, maxPhases, maxActions int, anchors ...uint64) *rap
 			phase.SettleRounds = rapid.SampledFrom([]int{0, 0, 1, 3}).Draw(t, "settle")
 			p.Phases = append(p.Phases, phase)
 		}
+		// one plan in six ends by shrinking the ring: more leaves than members are requested and
+		// the runner lets all but one of them go (concurrently), so that rings that end with a
+		// single survivor or very few nodes are not rare
+		if rapid.IntRange(0, 5).Draw(t, "shrink") == 0 {
+			var phase churnPhase
+			for i := 0; i < 12; i++ {
+				phase.Actions = append(phase.Actions, churnAction{Kind: "leave", Pick: i})
+			}
+			p.Phases = append(p.Phases, phase)
+			if rapid.Bool().Draw(t, "shrinkTwice") {
+				p.Phases = append(p.Phases, phase)
+			}
+		}
 		return p
 	})
 }
